@@ -148,11 +148,11 @@ func init() {
 		"(*net/http.Client).Get":             httpRespErr,
 	}
 	invokeModels = map[string]intrinsic{
-		"(error).Error":         freshString,
-		"(net.Listener).Accept":        valOrErr,
-		"(net.Conn).SetDeadline":       connSetDeadline,
-		"(net.Conn).SetReadDeadline":   connSetDeadline,
-		"(net.Conn).Read":              connRead,
+		"(error).Error":              freshString,
+		"(net.Listener).Accept":      valOrErr,
+		"(net.Conn).SetDeadline":     connSetDeadline,
+		"(net.Conn).SetReadDeadline": connSetDeadline,
+		"(net.Conn).Read":            connRead,
 	}
 	intrinsicWrites = map[string]func(c *ssa.CallCommon, ws *writeSet){
 		"sync/atomic.StoreUint32": func(c *ssa.CallCommon, ws *writeSet) { ws.all = true },
